@@ -95,6 +95,37 @@ theorem sendMsg_total (ser : Ser.State) (hp : 1 ≤ ser.maxCs) {m : RtmpMsg} {ty
   simp only [h1, h2, if_false]
   exact ⟨_, _, rfl⟩
 
+theorem serialize_total (ser : Ser.State) (hp : 1 ≤ ser.maxCs) (m : Msg) (hl : m.data.length ≤ 16777215) (f d : Bool) :
+    ∃ ser' p, Ser.serialize ser m f d = .ok (ser', p) := by
+  unfold Ser.serialize
+  have h1 : ¬ (m.data.length > maxMsgLen) := by simp only [maxMsgLen]; omega
+  have h2 : ¬ (ser.maxCs = 0 ∧ ¬ m.data.isEmpty = true) := by omega
+  simp only [h1, h2, if_false]
+  exact ⟨_, _, rfl⟩
+
+/-- the serializer's chunk-size setter cannot fail for a size in 1..2^31-1 -/
+theorem setcs_total (ser : Ser.State) (hp : 1 ≤ ser.maxCs) (n : Nat) (hn : 1 ≤ n ∧ n ≤ 2147483647) (ts : Nat) :
+    ∃ ser' p, Ser.setMaxChunkSize ser n ts = .ok (ser', p) := by
+  unfold Ser.setMaxChunkSize
+  have h1 : ¬ (n = 0 ∨ n > maxChunkSize) := by simp only [maxChunkSize]; omega
+  obtain ⟨s', p, hs⟩ := serialize_total ser hp { ts := ts, typ := 1, msid := 0, data := be32 n } (by simp [be32]) true false
+  simp only [h1, if_false, hs]
+  exact ⟨_, _, rfl⟩
+
+theorem srv_stepMsg_fp {v : Srv.State} {now : Nat} {m : Msg} {rm : RtmpMsg} (h : fromPayload m.typ m.data = .ok rm) :
+    SrvSteps.stepMsg v now m = Srv.handleMessage v now m rm := by
+  unfold SrvSteps.stepMsg
+  simp only [h]
+
+theorem cli_stepMsg_fp {c : Cli.State} {now : Nat} {m : Msg} {rm : RtmpMsg} (h : fromPayload m.typ m.data = .ok rm) :
+    CliSteps.stepMsg c now m =
+      match Cli.handleMessage c now m rm with
+      | (_, .error e) => .error e
+      | (s2, .ok rs) => .ok (s2, rs) := by
+  unfold CliSteps.stepMsg
+  simp only [h]
+  rfl
+
 /-- a received message whose payload is the encoding of a well-formed `m` is handled as `m` (server) -/
 theorem srv_stepMsg_of {m : RtmpMsg} {typ : Nat} {body : Bytes} (hw : C13.WF m) (h : toPayload m = .ok (typ, body))
     (v : Srv.State) (now ts msid : Nat) :
